@@ -96,8 +96,8 @@ theorem bind {m : Dec α} {f : α → Dec β} (hm : Suffix m) (hf : ∀ a, Suffi
     exact ⟨fun b r h => ((hf a r').1 b r h).trans h1, fun e r h => ((hf a r').2 e r h).trans h1⟩
   | err e r' =>
     have h1 := (hm bs).2 e r' hmb
-    exact ⟨fun b r h => by cases h, fun e' r h => by cases h; exact h1⟩
-  | panic => exact ⟨fun b r h => by cases h, fun e' r h => by cases h⟩
+    exact ⟨fun b r h => (by cases h), fun e' r h => (by cases h; exact h1)⟩
+  | panic => exact ⟨fun b r h => (by cases h), fun e' r h => (by cases h)⟩
 
 theorem ite {c : Prop} [Decidable c] {a b : Dec α} (ha : Suffix a) (hb : Suffix b) :
     Suffix (if c then a else b) := by
@@ -117,16 +117,16 @@ macro "suffix" : tactic =>
   `(tactic| repeat' (first
       | exact Suffix.pure _ | exact Suffix.fail _ | exact Suffix.read | exact Suffix.current
       | exact Suffix.peek | exact Suffix.remaining | exact Suffix.readSlice _ | exact Suffix.panic
-      | assumption
-      | apply Suffix.bind | intro _ | split))
+      | assumption | apply_assumption
+      | refine Suffix.bind ?_ (fun _ => ?_) | split))
 
 /-- the same for `NoPanic`, also splitting `match`. -/
 macro "nopanic'" : tactic =>
   `(tactic| repeat' (first
       | exact NoPanic.pure _ | exact NoPanic.fail _ | exact NoPanic.read | exact NoPanic.current
       | exact NoPanic.peek | exact NoPanic.remaining | exact NoPanic.readSlice _
-      | assumption
-      | apply NoPanic.bind | intro _ | split))
+      | assumption | apply_assumption
+      | refine NoPanic.bind ?_ (fun _ => ?_) | split))
 
 /-! ### EoiNil -/
 
@@ -194,7 +194,7 @@ theorem ite {p : Prop} [Decidable p] {c : Nat} {sz : α → Nat} {a b : Dec α}
   split <;> assumption
 
 theorem of_consumes {m : Dec α} {k : Nat} (h : Consumes m k) : SizedBy 0 (fun _ => k) m := by
-  intro bs a r e; have := h bs a r e; omega
+  intro bs a r e; have := h bs a r e; show k + _ ≤ _; omega
 
 theorem to_consumes {m : Dec α} {sz : α → Nat} {k : Nat} (h : SizedBy 0 sz m) (hk : ∀ a, k ≤ sz a) :
     Consumes m k := by
